@@ -85,6 +85,9 @@ def check_world(rec, case, mjm, qpos, c, rng):
   mjd.qpos[:] = qpos
   mujoco.mj_kinematics(mjm, mjd)
   groups = _col.group_by_pair(c)
+  mujoco.mj_collision(mjm, mjd)  # used only to name the mechanism of a violation (never for a verdict)
+  refc = _col.mj_contacts(mjm, mjd)
+  refg = _col.group_by_pair(refc)
   deepest = {}
   judged = 0
   for key, idx in groups.items():
@@ -210,6 +213,12 @@ def check_world(rec, case, mjm, qpos, c, rng):
           rec.viol("point-off-surface:ccd-witness-points" if num == "ccd" else f"point-off-surface:{pname}", f"pos {'-' if side == 'geom1' else '+'} n*dist/2 = {p} is {s:.6g} away from the surface of {side} ({o.type}); dist={di:.6g} {ctx}")
         elif r > 1:
           rec.count("grey:point_on_surface")
+    if len(rec.violations) > nv0 and tag != ":parallel-axes" and num == "prim" and key in refg:
+      ra = refg[key][int(np.argmin(refc["dist"][refg[key]]))]
+      if abs(float(refc["dist"][ra]) - dist) < 1e-5 and np.abs(refc["frame"][ra][:3] - n).max() < 1e-3:
+        # MJWarp's primitive function reproduces MuJoCo's own answer, which is itself not the exact signed distance
+        rec.violations[nv0]["sig"] = "primitive-inexact:same-as-mujoco"
+        del rec.violations[nv0 + 1 :]
     if tag == ":parallel-axes" and len(rec.violations) > nv0:
       # one mechanism (float32 determinant test sends exactly parallel capsules down the non-parallel branch)
       rec.violations[nv0]["sig"] = "capsule-capsule:parallel-axes"
@@ -294,6 +303,9 @@ def run_case(case):
         minsize = min(_minsize(mjm, key[0]), _minsize(mjm, key[1]))
         if abs(ratio - 1) <= 0.3:
           rec.count("metamorphic:ok")
+        elif ratio < -0.5 and dist > -0.5 * minsize and t1 != "hfield" and mtag == "" and not (-1.3 <= ratio <= -0.7) and _numclass(t1, t2, case["flags"]) == "ccd":
+          # not a reversed normal (that gives slope -1): the convex solver's distance jumps under a 1 mm move
+          rec.viol("dist-discontinuous:ccd", f"world {w} geoms {key} {pname}: moving geom2 by {step:.4g} along the reported normal changed the deepest dist from {dist:.6g} to {d2:.6g} (slope {ratio:.3g})")
         elif ratio < -0.5 and dist > -0.5 * minsize:
           rec.viol(
             "capsule-capsule:parallel-axes" if mtag == ":parallel-axes" else f"normal-direction:{'hfield' if t1 == 'hfield' else pname}",
